@@ -355,16 +355,24 @@ func tokenizeForSemantics(content string) []semanticToken {
 		// it is made of ("*.journal", "sub/2024-01.journal").
 		if inDirective && directiveType == "include" && tok.Type != parser.TokenDirective &&
 			tok.Type != parser.TokenNewline && tok.Type != parser.TokenComment {
+			// Blanks after the path (before a comment or the line end) are not part of it.
+			endCol := tok.End.Column - 1
+			if tok.Type == parser.TokenText {
+				// a text token ends where scanning stopped; its value is the text without the blanks
+				if e := tok.Pos.Column - 1 + lsputil.UTF16Len(tok.Value); e < endCol {
+					endCol = e
+				}
+			}
 			if n := len(tokens); n > 0 && tokens[n-1].tokenType == TokenTypeString && tokens[n-1].line == uint32(tok.Pos.Line-1) &&
 				tok.End.Line == tok.Pos.Line {
-				tokens[n-1].length = uint32(tok.End.Column-1) - tokens[n-1].col
+				tokens[n-1].length = uint32(endCol) - tokens[n-1].col
 				continue
 			}
-			if tok.End.Line == tok.Pos.Line && tok.End.Column > tok.Pos.Column {
+			if tok.End.Line == tok.Pos.Line && endCol > tok.Pos.Column-1 {
 				tokens = append(tokens, semanticToken{
 					line:      uint32(tok.Pos.Line - 1),
 					col:       uint32(tok.Pos.Column - 1),
-					length:    uint32(tok.End.Column - tok.Pos.Column),
+					length:    uint32(endCol - (tok.Pos.Column - 1)),
 					tokenType: TokenTypeString,
 				})
 			}
